@@ -15,13 +15,15 @@ def run(ctx):
         "depth(n) = ceil(log2 n) computed in float64 is modelled as the bit length of n-1 and compared over the sizes used",
         "MAX_SIZE (1 MiB) path-size guard is a hypothesis of the completeness theorem",
     ]
-    ctx.cov["trusted_base"] += ["harness hmerkle/mserve,mledger + drv_merkle (correspondence check)", "Lean compiler for the driver"]
+    ctx.cov["trusted_base"] += ["harness hmerkle/mserve, hmledger/mledger + drv_merkle (correspondence check)", "Lean compiler for the driver"]
     ctx.lean_props()
     hbin = ctx.build_harness("hmerkle")
     drv = ctx.build_driver("drv_merkle")
     if hbin:
         res = ctx.correspondence("mserve", hbin, ["mserve"], drv, ["mserve"])
         ctx.judge(res, theorem_hint="Poly.Props.C08.* (model of HashFullTree / MerkleHashes / MerkleLeafPath no longer matches /repo/merkle)")
-        res = ctx.correspondence("mledger", hbin, ["mledger"], drv, ["mledger"])
+    lbin = ctx.build_harness("hmledger")
+    if lbin:
+        res = ctx.correspondence("mledger", lbin, ["mledger"], drv, ["mledger"])
         ctx.judge(res, theorem_hint="Poly.Props.C08.served_* (model of the ledger glue: accumulator leaves, cross-hash storage, GetCrossStatesProof, Ledger.GetMerkleProof no longer matches /repo)")
     ctx.judge_lean()
